@@ -31,6 +31,32 @@ func main() {
 	}
 	enc := json.NewEncoder(os.Stdout)
 	bad := 0
+	if len(os.Args) > 2 && os.Args[2] == "globals" {
+		// inventory of package-level variables (C16: process-wide cells that outlive an execution)
+		for _, p := range pkgs {
+			if len(p.Errors) > 0 {
+				for _, e := range p.Errors {
+					fmt.Fprintln(os.Stderr, "pkg error:", p.PkgPath, e)
+				}
+				os.Exit(3)
+			}
+			scope := p.Types.Scope()
+			for _, name := range scope.Names() {
+				v, ok := scope.Lookup(name).(*types.Var)
+				if !ok {
+					continue
+				}
+				fname := p.Fset.Position(v.Pos()).Filename
+				rel, _ := filepath.Rel(dir, fname)
+				if strings.HasSuffix(rel, "_test.go") {
+					continue
+				}
+				enc.Encode(map[string]interface{}{"pkg": strings.TrimPrefix(p.PkgPath, "github.com/DemoHn/Zn/"), "name": name,
+					"type": types.TypeString(v.Type(), func(q *types.Package) string { return q.Name() }), "file": rel})
+			}
+		}
+		return
+	}
 	for _, p := range pkgs {
 		if len(p.Errors) > 0 {
 			for _, e := range p.Errors {
